@@ -16,6 +16,7 @@ from concurrent.futures import ThreadPoolExecutor
 import pipeline as pl
 
 BFS_WORKERS = int(os.environ.get('VERIF_TLC_WORKERS', '6'))
+GEN_TIMEOUT = int(os.environ.get('VERIF_GEN_TIMEOUT', '5400'))
 GEN_PARALLEL = int(os.environ.get('VERIF_GEN_PARALLEL', '3'))     # TLC generator runs side by side
 
 ALL_CODECS = ['ber', 'der', 'per', 'uper', 'oer', 'jer', 'xer', 'gser']
@@ -50,7 +51,7 @@ def cached_generate(run, module, cfg, out_name, what, **kw):
         run.account(res, what + ' (cached)')
         run.notes['generator_cache_hits'] = run.notes.get('generator_cache_hits', 0) + 1
         return out, res
-    out, res = pl.tlc_generate(run, module, cfg, out_name, what=what, **kw)
+    out, res = pl.tlc_generate(run, module, cfg, out_name, what=what, timeout=GEN_TIMEOUT, **kw)
     os.makedirs(CACHE, exist_ok=True)
     tmp = key + '.tmp%d' % os.getpid()
     shutil.copy(out, tmp)
@@ -114,10 +115,12 @@ def c11(tier, seed):
     try:
         if tier.startswith('smoke'):       # smoke0 / smoke1: BFS to that depth only (sensitivity demonstrations)
             plan = [('bfs', int(tier[5:] or 0), False, ['A'])]
+        elif tier == 'probe':              # deep random nestings only (triage aid)
+            plan = [('sim', 'num=8', 5, True, ['E', 'I', 'A'])]
         elif tier == 'quick':
             plan = [('bfs', 1, False, ['A']), ('sim', 'num=4', 4, False, ['E'])]
         else:
-            plan = [('bfs', 2, False, ['A', 'E']), ('bfs', 1, True, ['I']), ('sim', 'num=400', 6, True, ['E', 'I', 'A'])]
+            plan = [('bfs', 2, False, ['A']), ('bfs', 1, True, ['E', 'I']), ('sim', 'num=60', 5, True, ['E', 'I', 'A'])]
         cases = generate(run, 'ConGen', 'ConSpec', 'ConEmit', plan, 'g') + witness_cases('C11')
         for c in cases:
             c.pop('exp', None)      # the expectation is recomputed by the trace specification
@@ -185,12 +188,16 @@ def c12(tier, seed):
             plan = [('bfs', int(tier[5:] or 0), False, ['A'])]
             mc = None
             taus = quick_taus
+        elif tier == 'probe':              # deep random nestings only (triage aid)
+            plan = [('sim', 'num=8', 5, True, ['E', 'I', 'A'])]
+            mc = None
+            taus = quick_taus
         elif tier == 'quick':
             plan = [('bfs', 1, False, ['A']), ('sim', 'num=2', 3, False, ['E'])]
             mc = (0, False)
             taus = quick_taus
         else:
-            plan = [('bfs', 2, False, ['A', 'E']), ('bfs', 1, True, ['I']), ('sim', 'num=300', 6, True, ['E', 'I', 'A'])]
+            plan = [('bfs', 2, False, ['A']), ('bfs', 1, True, ['E', 'I']), ('sim', 'num=40', 5, True, ['E', 'I', 'A'])]
             mc = (1, False)
             taus = all_taus
 
